@@ -49,3 +49,53 @@ Qed.
 Lemma translated_encoders_ranges_lemma : forall s, In s gen_encoders ->
   Forall (fun o => o = OffPartStart) (offs s) /\ length (offs s) = nbufs s /\ srcs s <> [] /\ Forall (fun o => o = SrcPartition) (srcs s).
 Proof. intros s Hs. apply skel_ok_offsets. exact (proj1 (forallb_forall _ _) gen_encoders_ok_lemma s Hs). Qed.
+
+(* ---- encode_filters_partition: one record's FILTER value -> its row of flags ---------------------------------- *)
+Lemma set_nth_length {A} : forall i (v : A) l, length (set_nth i v l) = length l.
+Proof. induction i as [|i IH]; intros v [|x l]; cbn [set_nth length]; try reflexivity. rewrite IH. reflexivity. Qed.
+
+Lemma nth_set_nth : forall i (l : list bool) k, nth k (set_nth i true l) false = ((k =? i)%nat && (i <? length l)%nat) || nth k l false.
+Proof.
+  induction i as [|i IH]; intros [|x l] k; cbn [set_nth length].
+  - destruct k; reflexivity.
+  - destruct k; [reflexivity|]. cbn [nth Nat.eqb]. reflexivity.
+  - destruct k; cbn [nth]; rewrite ?andb_false_r; reflexivity.
+  - destruct k as [|k]; [reflexivity|]. cbn [nth]. rewrite IH. reflexivity.
+Qed.
+
+(* an undeclared filter anywhere in the record's value is an error, whatever came before it *)
+Lemma translated_filter_row_rejects_undeclared_lemma : forall nf value, In None value -> gen_filter_row nf value = Err E_ValueError.
+Proof.
+  intros nf value. unfold gen_filter_row. generalize (repeat false nf) as row.
+  induction value as [|f tl IH]; intros row H; [contradiction|].
+  destruct f as [i|]; cbn [gen_filter_row_loop]; [|reflexivity]. apply IH. destruct H as [H|H]; [discriminate|exact H].
+Qed.
+
+(* all filters declared: the row has one flag per declared filter, set exactly for the filters the record uses *)
+Definition uses (value : list (option nat)) (k : nat) : bool :=
+  existsb (fun f => match f with Some i => (k =? i)%nat | None => false end) value.
+
+Lemma filter_loop_flags : forall value row, Forall (fun f => exists i, f = Some i /\ (i < length row)%nat) value ->
+  exists row', gen_filter_row_loop row value = Ok row' /\ length row' = length row /\
+               forall k, nth k row' false = uses value k || nth k row false.
+Proof.
+  induction value as [|f tl IH]; intros row H.
+  - exists row. split; [reflexivity|]. split; [reflexivity|]. intros k. reflexivity.
+  - inversion H as [|? ? [i [-> Hi]] Ht]; subst. cbn [gen_filter_row_loop].
+    destruct (IH (set_nth i true row)) as [row' [E [L F]]].
+    { rewrite set_nth_length. exact Ht. }
+    exists row'. split; [exact E|]. split; [rewrite L; apply set_nth_length|].
+    intros k. rewrite F, nth_set_nth. change (uses (Some i :: tl) k) with ((k =? i)%nat || uses tl k).
+    assert ((i <? length row)%nat = true) as -> by (apply Nat.ltb_lt; exact Hi). rewrite andb_true_r.
+    destruct (k =? i)%nat; destruct (uses tl k); destruct (nth k row false); reflexivity.
+Qed.
+
+Lemma translated_filter_row_flags_lemma : forall nf value, Forall (fun f => exists i, f = Some i /\ (i < nf)%nat) value ->
+  exists row, gen_filter_row nf value = Ok row /\ length row = nf /\ forall k, (k < nf)%nat -> nth k row false = uses value k.
+Proof.
+  intros nf value H. unfold gen_filter_row.
+  destruct (filter_loop_flags value (repeat false nf)) as [row [E [L F]]].
+  { eapply Forall_impl; [|exact H]. intros f [i [-> Hi]]. exists i. split; [reflexivity|]. rewrite repeat_length. exact Hi. }
+  exists row. split; [exact E|]. split; [rewrite L; apply repeat_length|].
+  intros k Hk. rewrite F. rewrite nth_repeat. apply orb_false_r.
+Qed.
